@@ -207,6 +207,7 @@ LEVEL_TEXT = ("Generated search, 4,000 / 40,000 ACGT strings of length >= k on a
               "random strings, long strands with dozens of separated errors) and all option combinations: every call "
               "must return a well-formed pair without raising inside explicit polynomial budgets on graph look-ups "
               "and on executed library lines, so that a non-terminating call is a replayable failure rather than a "
-              "timeout.")
+              "timeout."
+              " Strands of 6,000..16,000 nt with 600..1,700 damaged sites (candidate product beyond 2^1024, or 1,000+ uniquely repairable sites) run under the same budgets and the interpreter's default recursion limit.")
 LEVEL_NOTE = ("Trusted: the two budgets as the meaning of 'terminates after polynomially many look-ups'; "
               "sys.settrace line events restricted to frames whose code lives under the repository's dsw/ directory.")
